@@ -337,13 +337,21 @@ def cond_case(draw, tier):
         fibers.append(small_ops(draw, 1) + [op("ctrylock", draw(ints(1, 12)), draw(ints(0, 3)))])
     order = draw(st.permutations(list(range(len(fibers)))))
     fibers = [fibers[i] for i in order]
+    crowd = {}
+    ccls = []
+    if draw(ints(0, 24)) == 0:
+        # any number of waiters (around multiples of 128 and above 1024 as well)
+        n = draw(st.sampled_from([40, 127, 128, 129, 256, 300, 384, 1030, 2100]))
+        fibers[0].insert(0, op("ccrowd", n))
+        ccls = [crowd_class(n)]
+        crowd = crowd_limits(n)
     fibers.append([op("ctl")])
-    classes = ["threads=%d" % threads] + (["mutex_polled_with_trylock"] if trylockers else [])
+    classes = ["threads=%d" % threads] + (["mutex_polled_with_trylock"] if trylockers else []) + ccls
     if held_any:
         classes.append("signal_holding_mutex")
     if unheld_any:
         classes.append("signal_without_mutex")
-    return {"harness": "cond", "threads": threads, "cfg": {"cond": 1}, "fibers": fibers, "classes": classes}
+    return {**crowd, "harness": "cond", "threads": threads, "cfg": {"cond": 1}, "fibers": fibers, "classes": classes}
 
 
 # --------------------------------------------------------------------------- C04
@@ -1253,7 +1261,7 @@ EXTRA_RULE = {
     "C02": "Whole-runtime part also: bursts of up to 40 000 runnable fibers created at once, join/tryjoin/detach programs; ghosts: owner-only push, single-writer monitor on 'bottom' of every run queue.",
     "C03": "Any number of waiters: a crowd class (40 .. 70 000 further fibers running into a held mutex).",
     "C04": "Both forms of join/tryjoin (with and without a place for the result); targets that return NULL, -1, -2, -3, 1, 2 instead of distinct tokens.",
-    "C05": "Optionally 1-2 fibers that poll the condition's mutex with trylock.",
+    "C05": "Optionally 1-2 fibers that poll the condition's mutex with trylock; crowds of 40 .. 2100 further waiters (127/128/129, 256, 384, above 1024) released by signals, broadcasts and the controller.",
     "C06": "Semaphore values just below 2^8, 2^15, 2^16, 2^24, 2^30 that the posts then cross; crowds of 40 .. 70 000 fibers blocked on one semaphore; short-lived semaphores initialised, used and destroyed in between.",
     "C07": "Any number of simultaneous read holds (40 .. 70 000, and 4095/4096/4097) and of readers queued behind a writer and admitted by one hand-off.",
     "C08": "Also: soft descriptor limit below the hard one while the runtime starts and descriptors numbered above it; a reader that closes early under a blocked writer; fresh socketpairs that "
